@@ -126,7 +126,10 @@ CHECKS["C09"] = {
             "pending, losses and all later answers are unchanged) and the points of ask(n, True), whose state is tell_pending folded "
             "over them. LearnerND / IntegratorLearner (utils.restore snapshot): the roll-back half is proved on the models of C04 / C07 "
             "(state as given, also when the request raises; same points and error class as the committing ask), the committing half "
-            "is left to the twin oracle (listed as partial); Learner2D has no Lean model. Search: twin learners over 22 kinds, one "
+            "is left to the twin oracle (listed as partial). Learner2D: bookkeeping model L2D.lean (data, pending, suggestion stack; candidates of _fill_stack as oracle) "
+            "in bit-exact lock-step with the real class: ask never changes data; ask(n, False) returns the committing answer, leaves pending unchanged when the geometry "
+            "proposes no pending point (CandsFresh; counterexample otherwise = recorded finding) and rewrites the stack exactly as characterised (the recorded stack finding, "
+            "now a theorem with kernel-checked witnesses). Search: twin learners over 22 kinds, one "
             "receiving extra non-committing asks twice (incl. requests that cannot be served and raise, and requests larger than "
             "Learner2D's suggestion stack); every observable and every later answer compared exactly. The recorded Learner2D stack "
             "mechanism is recognised exactly (stack after the call = the candidates a committing ask of a deep copy produces, not "
@@ -144,8 +147,11 @@ CHECKS["C10"] = {
             "remove_unfinished empties the pending set and equalises both losses; LearnerND, IntegratorLearner and the complete "
             "AverageLearner1D (Props/C10More.lean, on the models of C04 / C07 / C16) - data = the distinct told points, point count, "
             "told => not pending, asked => pending until told or discarded, re-tell no-op, discard; where a clause is false of model and "
-            "code the kernel-checked counterexample stands next to the theorem, which then carries the explicit hypothesis. Learner2D has "
-            "no Lean model. Search: shadow bookkeeping over 21 learner kinds incl. wrappers, retries (re-marked told points), abscissae "
+            "code the kernel-checked counterexample stands next to the theorem, which then carries the explicit hypothesis. Learner2D "
+            "(L2D.lean: data, pending set, suggestion stack; the candidates of _fill_stack as oracle; bit-exact lock-step with the real class "
+            "in this check): data = the value told last, npoints = distinct told points, an in-bounds told point leaves pending and stack, "
+            "points of a committing ask are pending afterwards and (when the geometry proposes no pending/evaluated point) until told or "
+            "discarded, remove_unfinished empties pending and re-queues the unevaluated corners. Search: shadow bookkeeping over 21 learner kinds incl. wrappers, retries (re-marked told points), abscissae "
             "of the integrator told before they were handed out.",
     "design_ref": "DESIGN.md section 6 C10",
     "note": "Trusted: Lean kernel, standard axioms; models tied to the code by the lock-step checks C01/C02/C04/C07/C15/C16/C17/C18. "
@@ -186,8 +192,11 @@ CHECKS["C12"] = {
     "text": "Kernel-checked over ordered fields for ARBITRARY positive input and output factors, every loss function (needing only: "
             "insensitive to a common factor on values that are all equal), every nn, every history: each Learner1D operation "
             "commutes with scaling, the rescaled learner chooses exactly the scaled points with the same improvements and reports "
-            "the same losses. The bit-for-bit clause for IEEE doubles / powers of two and the LearnerND clause are decided by the "
-            "paired run on the real code (listed as partial: no Lean model of LearnerND, rounding outside the theorems). Search: "
+            "the same losses. LearnerND: its point choice in a triangle (Choose.lean, tied bit for bit to choose_point_in_simplex in C20) "
+            "is proved equivariant under a common factor on all axes with the transform diag(1/width) rescaled accordingly, and under translation "
+            "(lnd_choose2_*); the N-D primitives (volume, circumsphere, in-simplex test) are homogeneous (C20). The bit-for-bit clause for IEEE "
+            "doubles / powers of two and the LearnerND bookkeeping clause are decided by the paired run on the real code (partial: rounding outside "
+            "the theorems). Search: "
             "paired real learners, factors 2^k, k in [-30, 30], compared bit for bit at every step; generic factors to 1e-6.",
     "design_ref": "DESIGN.md section 6 C12", "note": _L1D_NOTE + " One LearnerND defect found here was repaired by a fix: commit; one is a recorded finding (absolute log-det cut).", "technique": T,
 }
@@ -197,7 +206,10 @@ CHECKS["C20"] = {
             "from the repository's source on every run (fast_norm, fast_det 2x2/3x3 = Matrix.det, 2-D/3-D circumcentre "
             "equidistant + unique + radius, in-triangle test = barycentric coordinates in [0,1] / convex combination, "
             "Heron = Gram determinant = |det|/2, volume = |det|/d!, 1-D uniform/default/triangle losses, linspace; invariance "
-            "under translation, relabelling, rigid motions, homogeneity; sanity of the tolerances read from the live modules). "
+            "under translation, relabelling, rigid motions, homogeneity; sanity of the tolerances read from the live modules); on top of the "
+            "generated circumcentre and in-triangle test the hand model Choose.lean of learnerND.choose_point_in_simplex for triangles: result = "
+            "centroid or midpoint of a longest edge in transformed coordinates, a convex combination of the vertices, centroid iff the circumcentre "
+            "passes the eps-test (eps = 0: iff not obtuse), equivariance. "
             "Tie: the same definitions evaluated at Float agree bit for bit (<= 4 ulp where libm hypot is involved) with the "
             "real functions on seeded inputs. Search: exact Fraction re-computation of every primitive's meaning incl. the "
             "numpy general-dimension branches, N-D/2-D losses and quadrature constants, dims 1-5.",
